@@ -138,6 +138,7 @@ func runSolver(s solverSpec, script string, timeoutMs int, hard time.Duration) (
 func (e *Engine) renderPath(lines []Line, covers bool, claim func(*Obligation) bool) (string, []*Obligation) {
 	var b strings.Builder
 	var obs []*Obligation
+	var universals []string // quantified facts asserted so far on this path (candidates for instantiation)
 	for _, l := range lines {
 		switch l.Kind {
 		case lDecl:
@@ -148,6 +149,9 @@ func (e *Engine) renderPath(lines []Line, covers bool, claim func(*Obligation) b
 				continue
 			}
 			fmt.Fprintf(&b, "(assert %s)\n", l.Text)
+			if !covers {
+				universals = append(universals, topUniversals(l.Text)...)
+			}
 		case lCheck:
 			if (l.Ob.Expect == "sat") != covers {
 				continue
@@ -156,12 +160,11 @@ func (e *Engine) renderPath(lines []Line, covers bool, claim func(*Obligation) b
 				continue
 			}
 			obs = append(obs, l.Ob)
-			fmt.Fprintf(&b, "(echo \"ob:%d\")\n(push 1)\n", l.Ob.ID)
 			if l.Ob.Expect == "sat" {
-				b.WriteString("(check-sat)\n(pop 1)\n")
-			} else {
-				fmt.Fprintf(&b, "(assert (not %s))\n(check-sat)\n(pop 1)\n", l.Ob.Goal)
+				fmt.Fprintf(&b, "(echo \"ob:%d\")\n(push 1)\n(check-sat)\n(pop 1)\n", l.Ob.ID)
+				continue
 			}
+			b.WriteString(e.renderGoal(l.Ob, universals, false))
 		}
 	}
 	if len(obs) == 0 {
@@ -170,7 +173,66 @@ func (e *Engine) renderPath(lines []Line, covers bool, claim func(*Obligation) b
 	return e.withPrelude(b.String(), covers), obs
 }
 
-// standalone renders the script for a single obligation (prefix of its path).
+// topUniversals lists the universally quantified conjuncts of an asserted formula.
+func topUniversals(t string) []string {
+	ch := sexprChildren(t)
+	if len(ch) == 0 {
+		return nil
+	}
+	switch ch[0] {
+	case "forall":
+		return []string{t}
+	case "and":
+		var out []string
+		for _, c := range ch[1:] {
+			out = append(out, topUniversals(c)...)
+		}
+		return out
+	}
+	return nil
+}
+
+// renderGoal emits one check per conjunct of the goal; universally quantified conjuncts are skolemised and the
+// universally quantified hypotheses of the path are instantiated at the skolem constants (a sound hint to the solver).
+func (e *Engine) renderGoal(ob *Obligation, universals []string, model bool) string {
+	var b strings.Builder
+	subs := splitGoal(ob.Goal, &e.counter)
+	if len(subs) > 24 {
+		subs = []subgoal{{concl: ob.Goal}}
+	}
+	for _, sg := range subs {
+		fmt.Fprintf(&b, "(echo \"ob:%d\")\n(push 1)\n", ob.ID)
+		for _, d := range sg.skolems {
+			b.WriteString(d)
+			b.WriteByte('\n')
+		}
+		var hypUniv []string
+		for _, h := range sg.hyps {
+			fmt.Fprintf(&b, "(assert %s)\n", h)
+			hypUniv = append(hypUniv, topUniversals(h)...)
+		}
+		if len(sg.names) > 0 && len(sg.names) <= 3 {
+			n := 0
+			for _, u := range append(append([]string{}, universals...), hypUniv...) {
+				for _, inst := range instantiateAt(u, sg.names) {
+					if n > 400 {
+						break
+					}
+					fmt.Fprintf(&b, "(assert %s)\n", inst)
+					n++
+				}
+			}
+		}
+		fmt.Fprintf(&b, "(assert (not %s))\n(check-sat)\n", sg.concl)
+		if model {
+			b.WriteString("(get-model)\n")
+			b.WriteString(e.getValueCmd(ob))
+		}
+		b.WriteString("(pop 1)\n")
+	}
+	return b.String()
+}
+
 func (e *Engine) getValueCmd(ob *Obligation) string {
 	ts := e.replayTerms[ob.Fn]
 	if len(ts) == 0 {
@@ -185,6 +247,7 @@ func (e *Engine) getValueCmd(ob *Obligation) string {
 
 func (e *Engine) standalone(lines []Line, ob *Obligation, model bool, quantFree bool) string {
 	var b strings.Builder
+	var universals []string
 	for _, l := range lines {
 		switch l.Kind {
 		case lDecl:
@@ -195,15 +258,22 @@ func (e *Engine) standalone(lines []Line, ob *Obligation, model bool, quantFree 
 				continue
 			}
 			fmt.Fprintf(&b, "(assert %s)\n", l.Text)
+			universals = append(universals, topUniversals(l.Text)...)
 		case lCheck:
 			if l.Ob == ob {
-				if ob.Expect != "sat" {
-					fmt.Fprintf(&b, "(assert (not %s))\n", ob.Goal)
-				}
-				b.WriteString("(check-sat)\n")
-				if model {
-					b.WriteString("(get-model)\n")
-					b.WriteString(e.getValueCmd(ob))
+				if ob.Expect == "sat" {
+					b.WriteString("(check-sat)\n")
+					if model {
+						b.WriteString("(get-model)\n")
+					}
+				} else if quantFree {
+					fmt.Fprintf(&b, "(assert (not %s))\n(check-sat)\n", ob.Goal)
+					if model {
+						b.WriteString("(get-model)\n")
+						b.WriteString(e.getValueCmd(ob))
+					}
+				} else {
+					b.WriteString(e.renderGoal(ob, universals, model))
 				}
 				return e.withPrelude(b.String(), quantFree)
 			}
@@ -212,21 +282,36 @@ func (e *Engine) standalone(lines []Line, ob *Obligation, model bool, quantFree 
 	return e.withPrelude(b.String(), quantFree)
 }
 
+// parseResults combines the answers per obligation: unsat only if every sub-check is unsat; sat if any is sat.
 func parseResults(out string) map[int]string {
 	res := map[int]string{}
 	lines := strings.Split(out, "\n")
 	cur := -1
+	pending := map[int]bool{}
 	for _, l := range lines {
 		l = strings.TrimSpace(l)
 		l = strings.Trim(l, "\"")
 		if strings.HasPrefix(l, "ob:") {
 			fmt.Sscanf(l, "ob:%d", &cur)
+			pending[cur] = true
 			continue
 		}
 		if cur >= 0 && (l == "sat" || l == "unsat" || l == "unknown" || strings.HasPrefix(l, "timeout")) {
-			res[cur] = l
+			prev, seen := res[cur]
+			switch {
+			case !seen:
+				res[cur] = l
+			case prev == "sat" || l == "sat":
+				res[cur] = "sat"
+			case prev != "unsat" || l != "unsat":
+				res[cur] = "unknown"
+			}
+			delete(pending, cur)
 			cur = -1
 		}
+	}
+	for id := range pending {
+		res[id] = "unknown" // a sub-check produced no answer
 	}
 	return res
 }
@@ -300,6 +385,12 @@ func (e *Engine) solveAll(want func(*Obligation) bool, quickMs, slowMs int, work
 			}
 		}()
 	}
+	if d := os.Getenv("GOVC_DUMPALL"); d != "" {
+		_ = os.MkdirAll(d, 0o755)
+		for i, j := range jobs {
+			_ = os.WriteFile(filepath.Join(d, fmt.Sprintf("path%03d_%s.smt2", i, safeName(j.obs[0].Fn))), []byte(j.text), 0o644)
+		}
+	}
 	for _, j := range jobs {
 		ch <- j
 	}
@@ -337,7 +428,7 @@ func (e *Engine) retryOne(lines []Line, ob *Obligation, slowMs int, scratch stri
 	var outs []string
 	for i := 0; i < len(solvers); i++ {
 		r := <-results
-		first := strings.TrimSpace(strings.SplitN(strings.TrimSpace(r.out), "\n", 2)[0])
+		first := answerOf(r.out, ob)
 		outs = append(outs, r.solver+": "+first)
 		if ob.Expect == "sat" {
 			if first == "sat" {
@@ -356,7 +447,7 @@ func (e *Engine) retryOne(lines []Line, ob *Obligation, slowMs int, scratch stri
 		if first == "sat" && status != "failed" {
 			status, solver, secs = "failed", r.solver, r.secs
 			model = r.out
-			ob.Values = parseGetValue(r.out)
+			ob.Values = e.withConsts(ob.Fn, parseGetValue(r.out))
 		}
 	}
 	if ob.Expect != "sat" && status != "discharged" {
@@ -365,10 +456,10 @@ func (e *Engine) retryOne(lines []Line, ob *Obligation, slowMs int, scratch stri
 		for _, s := range solvers[:2] {
 			t0 := time.Now()
 			out, _ := runSolver(s, qf, slowMs, time.Duration(slowMs+3000)*time.Millisecond)
-			first := strings.TrimSpace(strings.SplitN(strings.TrimSpace(out), "\n", 2)[0])
+			first := answerOf(out, ob)
 			if first == "sat" {
 				status, solver, secs, model = "failed", s.name+" (quantifier-free context)", time.Since(t0).Seconds(), out
-				ob.Values = parseGetValue(out)
+				ob.Values = e.withConsts(ob.Fn, parseGetValue(out))
 				break
 			}
 			if first == "unsat" {
@@ -393,4 +484,30 @@ func (e *Engine) retryOne(lines []Line, ob *Obligation, slowMs int, scratch stri
 		}
 	}
 	mu.Unlock()
+}
+
+func (e *Engine) withConsts(fn string, vals map[string]string) map[string]string {
+	for k, v := range e.replayConsts {
+		if strings.HasPrefix(k, fn+"\x00") {
+			vals[strings.TrimPrefix(k, fn+"\x00")] = v
+		}
+	}
+	return vals
+}
+
+// answerOf extracts the verdict for one obligation from a standalone run.
+func answerOf(out string, ob *Obligation) string {
+	if strings.Contains(out, fmt.Sprintf("ob:%d", ob.ID)) {
+		return parseResults(out)[ob.ID]
+	}
+	for _, l := range strings.Split(strings.TrimSpace(out), "\n") {
+		l = strings.TrimSpace(l)
+		if l == "sat" || l == "unsat" || l == "unknown" {
+			return l
+		}
+		if strings.HasPrefix(l, "(error") || strings.HasPrefix(l, "timeout") {
+			return "unknown"
+		}
+	}
+	return "unknown"
 }
